@@ -3,10 +3,10 @@ package checks
 import (
 	"bufio"
 	"context"
-	"io"
 	"encoding/binary"
 	"encoding/json"
 	"fmt"
+	"io"
 	"math/rand"
 	"net"
 	"os"
